@@ -36,7 +36,7 @@ ASSUMPTIONS = ["wildcards take no arguments (default wildcard: every expression 
                "LF line ends, UTF-8; overlapping windows of a multi-statement pattern: which of them is rewritten "
                "is not decided by the statement, only 'nothing else changes' is checked there",
                "which occurrence of a repeated wildcard is reported is not decided: any occurrence is accepted"]
-BUDGET = {"quick": (2000, 70), "thorough": (80000, 840)}
+BUDGET = {"quick": (2000, 70), "thorough": (80000, 480)}
 EXHAUSTIVE = {}
 REQUIRE = {"patterns_checked": 300, "match_sets_compared": 300, "multi_instance_patterns": 60,
            "nested_instance_patterns": 10, "region_excludes_some_instance": 30, "repeated_wildcard_patterns": 20,
